@@ -481,6 +481,55 @@ pop
 pop
 retsub
 """)
+HAND["h015"] = ("optimisation-detector findings in both branches of conditionals and inside a loop: block construction order differs from block-id order", """
+#pragma version 7
+txn NumAppArgs
+bz no_args
+txna Accounts 0
+pop
+int 0
+gtxns Sender
+pop
+b join
+no_args:
+txna Accounts 0
+pop
+txn GroupIndex
+gtxns Receiver
+pop
+join:
+int 0
+store 0
+again:
+load 0
+int 2
+<
+bz done
+int 1
+gtxns RekeyTo
+global ZeroAddress
+==
+assert
+txna Accounts 0
+pop
+load 0
+int 1
++
+store 0
+b again
+done:
+txn GroupIndex
+gtxns CloseRemainderTo
+global ZeroAddress
+==
+bnz ok
+err
+ok:
+txna Accounts 0
+pop
+int 1
+return
+""")
 
 
 # ---------------------------------------------------------------------------- generator
@@ -534,9 +583,20 @@ def cond(rng, depth=0):
     return cond(rng, depth + 1) + ["!"]
 
 
+def opt_pattern(rng):
+    r = rng.random()
+    if r < 0.4:
+        return ["txna Accounts 0", "pop"]
+    if r < 0.7:
+        return ["int %d" % rng.choice([0, 1, 2]), "gtxns " + rng.choice(["Sender", "RekeyTo", "Receiver"]), "pop"]
+    return ["txn GroupIndex", "gtxns " + rng.choice(["Sender", "CloseRemainderTo", "Fee"]), "pop"]
+
+
 def checks(rng, n, label_gen):
     out = []
     for _ in range(n):
+        if rng.random() < 0.18:
+            out += opt_pattern(rng)
         c = cond(rng)
         r = rng.random()
         if r < 0.6:
@@ -607,6 +667,37 @@ def program(rng):
     return "\n".join(lines) + "\n"
 
 
+def twin(text, rng):
+    """A contract identical to `text` line for line except for one token (None if no edit applies)."""
+    lines = text.split("\n")
+    edits = []
+    for i, l in enumerate(lines):
+        t = l.strip()
+        w = t.split()
+        if not w or t.startswith("//"):
+            continue
+        if w[0] in ("intcblock", "bytecblock") and len(w) > 2:
+            edits.append((i, "rotate " + w[0], l.replace(" ".join(w[1:]), " ".join(w[2:] + w[1:2]))))
+        elif w[0] in ("int", "pushint") and len(w) >= 2:
+            alt = {"NoOp": "OptIn", "OptIn": "NoOp", "UpdateApplication": "DeleteApplication", "DeleteApplication": "UpdateApplication",
+                   "CloseOut": "NoOp", "pay": "axfer", "axfer": "pay", "appl": "pay", "0": "1", "1": "0", "2": "3"}.get(w[1])
+            if alt is None and w[1].isdigit():
+                alt = str(int(w[1]) + 1)
+            if alt is not None:
+                edits.append((i, "operand %s -> %s" % (w[1], alt), l.replace(w[1], alt, 1)))
+        elif t in ("==", "!=", "<", "<=", ">", ">="):
+            alt = {"==": "!=", "!=": "==", "<": "<=", "<=": "<", ">": ">=", ">=": ">"}[t]
+            edits.append((i, "operator %s -> %s" % (t, alt), l.replace(t, alt, 1)))
+        elif t == "global ZeroAddress":
+            edits.append((i, "ZeroAddress -> CreatorAddress", l.replace("ZeroAddress", "CreatorAddress")))
+    if not edits:
+        return None, None
+    blockish = [e for e in edits if e[1].startswith("rotate")]
+    i, what, new = rng.choice(blockish) if blockish and rng.random() < 0.8 else rng.choice(edits)
+    lines[i] = new
+    return "\n".join(lines), "line %d: %s" % (i + 1, what)
+
+
 def main():
     idx_path = os.path.join(OUT, "index.json")
     index = [e for e in json.load(open(idx_path)) if e["id"].startswith("t")]
@@ -625,6 +716,24 @@ def main():
             f.write(text)
         index.append({"id": gid, "file": "teal/%s.teal" % gid, "origin": "generated: tools/gen_programs.py seed=20260923 #%d" % n,
                       "sha256": hashlib.sha256(text.encode()).hexdigest(), "lines": text.count("\n")})
+    # twins: same text and line numbers as an existing contract except for one token, so that
+    # anything remembered from the one under a key made of text / lines / ids is wrong for the other
+    trng = random.Random(20260924)
+    base = [e for e in index if e["lines"] <= 400]
+    with_blocks = [e for e in base if "intcblock" in open(os.path.join(OUT, e["file"])).read()]
+    chosen = with_blocks[:30] + trng.sample([e for e in base if e not in with_blocks], 50)
+    n = 0
+    for e in chosen:
+        text = open(os.path.join(OUT, e["file"])).read()
+        tw, what = twin(text, trng)
+        if tw is None or tw == text:
+            continue
+        wid = "w%03d" % n
+        n += 1
+        with open(os.path.join(OUT, "teal", wid + ".teal"), "w") as f:
+            f.write(tw)
+        index.append({"id": wid, "file": "teal/%s.teal" % wid, "origin": "twin of %s: %s" % (e["id"], what), "twin_of": e["id"],
+                      "sha256": hashlib.sha256(tw.encode()).hexdigest(), "lines": tw.count("\n")})
     json.dump(index, open(idx_path, "w"), indent=1)
     print(len(index), "programs")
 
